@@ -823,7 +823,7 @@ func RunOne(b Behaviour, tw *trace.Writer) error {
 	behJSON, _ := json.Marshal(b)
 	tw.Begin(trace.M{"module": "Drift", "part": "world", "behJson": string(behJSON), "tag": dash(b.Tag), "cur": "=" + v1.NodePoolHashVersion,
 		"typeKey": corev1.LabelInstanceTypeStable, "zoneKey": corev1.LabelTopologyZone, "ctKey": v1.CapacityTypeLabelKey,
-		"instanceTypeAge": 3600})
+		"instanceTypeAge": 3600, "pool": poolName})
 	w.Sink = tw.Emit
 	w.EnvCreate(world.NodeClass())
 	np := world.NodePool(poolName)
